@@ -394,6 +394,8 @@ func propC07(c *Ctx) {
 	c.Rule("R7.5", "block-map look-ups test ok; out-of-range block numbers are rejected before data is attached", 5)
 	propC07TraceReplyBlock(c)
 	propC07BatchReplies(c)
+	c.Rule("R7.11", "every reply is decoded into a value of its own (a reply decoded over the previous one keeps the members it does not mention: data of another block) – same rule as C11 R11.9", 1)
+	checkDecodeTargetsFresh(c, "R7.11")
 	for _, name := range []string{"(*Client).receipts", "(*Client).logs", "(*Client).traces"} {
 		fn := w.Fn("jrpc2", name)
 		n := 0
